@@ -304,7 +304,7 @@ def stepCore (cx : Ctx) (w : World) (ws : List String) : StepOut :=
       let e := sh.elem t
       elemOp r (Model.resize dr (getI r) n e) (Spec.resize dr (getS r) n e.rows) false e.flat
     | _, _, _ => badOp w
-  | ["extend_from_slice", r, q] | ["extend_refs", r, q] =>
+  | ["extend_from_slice", r, q] | ["extend_refs", r, q] | ["extend_refs_f", r, q] =>
     match parseReg r, parseReg q with
     | some r, some q =>
       if r == q then badOp w else
@@ -953,7 +953,7 @@ def capUpdate (cx : Ctx) (w w' : World) (ws : List String) (ok : Bool) : List Ca
   | "new" | "drop" | "unwind_drop" => set w.caps (reg 1) fresh
   | "with_capacity" => set w.caps (reg 1) (Cap.St.new cx.kinds (num 2))
   | "push" | "insert" => set w.caps (reg 1) (get (reg 1)).push
-  | "extend" | "extend_refs" | "promise" => set w.caps (reg 1) (Cap.St.pushes (lenOf w' (reg 1) - lenOf w (reg 1)) (get (reg 1)))
+  | "extend" | "extend_refs" | "extend_refs_f" | "promise" => set w.caps (reg 1) (Cap.St.pushes (lenOf w' (reg 1) - lenOf w (reg 1)) (get (reg 1)))
   | "collect" => set w.caps (reg 1) (Cap.St.pushes (lenOf w' (reg 1)) fresh)
   | "append" =>
     let cs := set w.caps (reg 1) ((get (reg 1)).grow (lenOf w (reg 2)))
